@@ -243,6 +243,11 @@ def make_ref(expr):
                 ref = "_".join(lst)
             else:
                 ref = f"{expr.kind}_{expr.intkey}"
+                if getattr(expr.context, "_is_alt", False):
+                    # intkey values of a context and of its alternative
+                    # context overlap while target printers use the
+                    # same name space for both
+                    ref += "_"
     elif ref is None:
         # referencing the expression has been disabled
         assert 0  # unreachable
